@@ -117,9 +117,13 @@ class Body:
                     cnt[l] = cnt.get(l, 0) + 1
                     if bl["term"]["t"] == "goto" and st["rv"]["r"] == "use" and st["rv"]["op"]["o"] == "const" and isinstance(st["rv"]["op"]["c"].get("v"), bool):
                         has_bool_store = True
+                    if bl["term"]["t"] == "goto" and st["rv"]["r"] == "aggregate" and st["rv"].get("ak") == "adt" and st["rv"].get("variant") is not None:
+                        has_bool_store = True  # a value of known variant is stored: a later match on it can be threaded
             t = bl["term"]
             if t["t"] == "call" and not t["dest"]["proj"]:
                 cnt[t["dest"]["l"]] = cnt.get(t["dest"]["l"], 0) + 1
+                if t["callee"].get("path") == "std::ops::FromResidual::from_residual":
+                    has_bool_store = True
         if has_bool_store:
             from . import thread
             self.blocks = copy.deepcopy(self.blocks)
